@@ -103,8 +103,15 @@ def _cases(tier, seed):
                     for extra in (0, 1):
                         for inferred in (False, True):
                             yield dict(kind="scatter", region=ri, size=size, seed=sd, proj=proj, extra=extra, inferred=inferred)
+                        if size in (1, 3):
+                            yield dict(kind="scatter", region=ri, size=size, seed=sd, proj=proj, extra=extra, inferred=False, rs="instance")
     for nx in (1, 2):
         yield dict(kind="extra_name", nx=nx)
+    # large grids (more than 2^18 and 2^20 nodes, row and column counts that are not multiples of anything convenient): every node
+    # still holds the prediction at its own coordinates (seed C05-12: prediction in blocks of rows with the remainder lost)
+    for shape in ([701, 523], [523, 701], [1031, 1021], [3, 400003]):
+        for proj in ("none", "rot"):
+            yield dict(kind="grid_big", shape=shape, proj=proj, nc=1 + (shape[0] % 2))
     for est in ("Trend", "KNeighbors", "Chain", "ChainReduce", "Vector", "CheckerBoard", "Spline", "SplineD", "Linear", "Cubic", "ScipyNearest",
                 "VectorSpline2D", "SplineCV"):
         for spec in (dict(shape=[3, 4]), dict(shape=[2, 5]), dict(spacing=[1.0, 0.5])):
@@ -502,6 +509,31 @@ def run(case, rec):
         rec.trivial = size < 2 or sep == 0
         rec.cls("profile/%s/%s" % (case["proj"], "coincident" if sep == 0 else "vertical" if dx == 0 else "horizontal" if dy == 0 else "oblique"))
         return
+    if kind == "grid_big":
+        nc = case["nc"]
+        g = _coder(nc)
+        region = (-3.0, 5.0, 10.0, 14.0)
+        pf = _proj(case["proj"])
+        ds = call(rec, g.grid, region=region, shape=tuple(case["shape"]), **({"projection": pf} if pf is not None else {}))
+        if raised(ds):
+            return rec.check(False, "grid raised %r" % (ds,))
+        ge, gn = vd.grid_coordinates(region, shape=tuple(case["shape"]))
+        rec.check(np.array_equal(ds.easting.values, ge[0]) and np.array_equal(ds.northing.values, gn[:, 0]), "coordinates of the large grid are not grid_coordinates(region, shape)")
+        pe, pn = (ge, gn) if pf is None else pf(ge, gn)
+        names = DEFAULT_NAMES[nc]
+        rec.check(list(ds.data_vars) == names, "data variables %r" % (list(ds.data_vars),))
+        for k, nm in enumerate(names):
+            if nm not in ds:
+                continue
+            vals = np.asarray(ds[nm].values)
+            want = _code(np.asarray(pe), np.asarray(pn), k)
+            ok = vals.shape == want.shape and bool(np.all(np.abs(vals - want) <= 64 * np.finfo(float).eps * np.abs(want).max()))
+            bad = np.argwhere(~(np.abs(vals - want) <= 64 * np.finfo(float).eps * np.abs(want).max())) if vals.shape == want.shape else []
+            rec.check(ok, "large grid %s: %d of %d nodes do not hold the prediction at their own coordinates (first at row, column %s)"
+                      % (case["shape"], len(bad), want.size, bad[0].tolist() if len(bad) else None))
+        rec.count("big_grid_nodes", int(np.prod(case["shape"])))
+        rec.cls("grid_big/%s" % case["proj"])
+        return
     if kind == "scatter":
         region = REGIONS[case["region"]]
         g = _coder(1)
@@ -516,9 +548,18 @@ def run(case, rec):
             kw["projection"] = pf
         if case["extra"]:
             kw["extra_coords"] = 7.0
+        if case.get("rs") == "instance":
+            # a RandomState object instead of an integer seed: it is consumed once, for exactly one draw of the points (seed C05-11)
+            kw["random_state"] = np.random.RandomState(case["seed"])
         sc = call(rec, g.scatter, **kw)
         if raised(sc):
             return rec.check(False, "scatter raised %r" % (sc,))
+        if case.get("rs") == "instance":
+            follow = kw["random_state"].uniform(size=3)
+            fresh = np.random.RandomState(case["seed"])
+            vd.scatter_points(region, case["size"], random_state=fresh)
+            rec.check(np.array_equal(follow, fresh.uniform(size=3)), "scatter consumed the RandomState it was given differently from one scatter_points call")
+            kw["random_state"] = case["seed"]
         pts = vd.scatter_points(region, case["size"], random_state=case["seed"], **({"extra_coords": 7.0} if case["extra"] else {}))
         cols = ["northing", "easting"] + (["extra_coord"] if case["extra"] else []) + ["scalars"]
         rec.check(list(sc.columns) == cols and len(sc) == case["size"], "scatter columns/rows %r %d" % (list(sc.columns), len(sc)))
